@@ -242,9 +242,15 @@ def entries(pym, seed, thorough=False):
             dirs=lambda r: [symdir(r, ne_)], tol=2e-5)
         add('EigenSolve', dict(n=ne_, kind='dense symmetric generalized'), lambda si, so: pym.EigenSolve(si, so), [Ae, Be], nout=2,
             dirs=lambda r: [symdir(r, ne_), symdir(r, ne_) * 0.1], tol=2e-5)
-        Ag = Qo @ np.diag(np.arange(1, ne_ + 1) * 1.3) @ np.linalg.inv(Qo) + 0.2 * np.triu(rng.standard_normal((ne_, ne_)), 1)
-        add('EigenSolve', dict(n=ne_, kind='dense general (real spectrum)'), lambda si, so: pym.EigenSolve(si, so), [np.triu(Ag) + np.diag(np.arange(ne_) * 1.1)], nout=2,
+        Tg = np.triu(rng.standard_normal((ne_, ne_)), 1) + np.diag(np.arange(1, ne_ + 1) * 1.5 + rng.random(ne_) * 0.3)
+        add('EigenSolve', dict(n=ne_, kind='dense general triangular (real spectrum)'), lambda si, so: pym.EigenSolve(si, so), [Tg], nout=2,
             dirs=lambda r: [np.triu(r.standard_normal((ne_, ne_)))], tol=2e-5)
+        Pg = rng.standard_normal((ne_, ne_)) + 2 * np.eye(ne_)
+        add('EigenSolve', dict(n=ne_, kind='dense general similar (real spectrum)'), lambda si, so: pym.EigenSolve(si, so),
+            [Pg @ Tg @ np.linalg.inv(Pg)], nout=2, dirs=lambda r: [0.05 * r.standard_normal((ne_, ne_))], tol=5e-5)
+        Tc = Tg + 1j * np.triu(rng.standard_normal((ne_, ne_)))
+        add('EigenSolve', dict(n=ne_, kind='dense complex general'), lambda si, so: pym.EigenSolve(si, so), [Tc], nout=2,
+            dirs=lambda r: [np.triu(r.standard_normal((ne_, ne_))) + 1j * np.triu(r.standard_normal((ne_, ne_)))], tol=2e-5)
     reps = 3 if thorough else 1
     for _ in range(reps):
         one_rep()
